@@ -302,6 +302,11 @@ def _is_zero(v):
     return isinstance(v, (int, float)) and not isinstance(v, bool) and v == 0
 
 
+def np_linalg_error():
+    import numpy as np
+    return np.linalg.LinAlgError
+
+
 class Numpy:
     """numpy function models; installed into a Lib instance."""
 
@@ -314,11 +319,13 @@ class Numpy:
                      "ix_", "tile", "repeat", "abs", "array", "column_stack", "count_nonzero", "logical_not", "where",
                      "flip", "sum", "zeros_like", "full_like", "copy", "arange", "log", "exp", "sqrt", "maximum", "minimum",
                      "nonzero", "delete", "argsort", "concatenate", "asarray", "shape", "isscalar", "array_equal", "cumsum",
-                     "diag", "eye", "round", "nanmean", "mean", "prod", "squeeze", "atleast_2d", "transpose", "nan_to_num", "triu", "block"):
+                     "diag", "eye", "round", "nanmean", "mean", "prod", "squeeze", "atleast_2d", "transpose", "nan_to_num", "triu", "block", "stack"):
             fn = getattr(self, "np_" + name, None)
             if fn is not None:
                 T[getattr(np, name)] = fn
         T[np.linalg.solve] = self.linalg_solve
+        T[np.linalg.matrix_power] = self.np_matrix_power
+        T[np.lib.stride_tricks.sliding_window_view] = self.np_sliding_window_view
         try:
             import scipy.linalg as _spl
             T[_spl.block_diag] = self.sp_block_diag
@@ -627,7 +634,7 @@ class Numpy:
             "all": lambda I2, a, k, n: self.np_all(I2, [obj] + list(a), k, n),
             "any": lambda I2, a, k, n: self.np_any(I2, [obj] + list(a), k, n),
             "sum": lambda I2, a, k, n: self.np_sum(I2, [obj] + list(a), k, n),
-            "flatten": lambda I2, a, k, n: self.reshape(I2, obj, [-1], n),
+            "flatten": lambda I2, a, k, n: self.flatten(I2, obj, a, k, n),
             "item": lambda I2, a, k, n: self.item(I2, obj, n),
             "fill": lambda I2, a, k, n: obj.write(lambda v: True, lambda v: a[0]),
             "nonzero": lambda I2, a, k, n: self.np_nonzero(I2, [obj], k, n),
@@ -1336,6 +1343,33 @@ class Numpy:
             return elem_ite(c, arr.get(*src), norm_elem(cv, arr.kind), arr.kind)
         return NDArr.fresh(fn, shape, arr.kind)
 
+    def np_sliding_window_view(self, I, a, k, n):
+        """sliding_window_view(x, window_shape=w, axis=ax): the window axis is appended last;
+        out[..., i, ..., j] = x[..., i + j, ...]; a window longer than the axis is a ValueError."""
+        self.note(I)
+        arr = self.coerce(I, a[0])
+        w = k.get("window_shape", a[1] if len(a) > 1 else None)
+        axis = k.get("axis", a[2] if len(a) > 2 else None)
+        if not isinstance(axis, int) or isinstance(w, (tuple, list)) or w is None:
+            raise Unsupported("sliding_window_view with several axes")
+        if axis < 0:
+            axis += arr.ndim
+        w = zint(w)
+        if not I.ctx.branch(w >= 0):
+            I.raise_exc(ValueError, "`window_shape` cannot contain negative values")
+        d = zint(arr.shape[axis])
+        if not I.ctx.branch(w <= d):
+            I.raise_exc(ValueError, "window shape cannot be larger than input array shape")
+        shape = list(arr.shape)
+        shape[axis] = as_dim(d - w + 1)
+        shape.append(as_dim(w))
+
+        def fn(*idx):
+            src = list(idx[:-1])
+            src[axis] = z3.simplify(zint(src[axis]) + zint(idx[-1]))
+            return arr.get(*src)
+        return NDArr.fresh(fn, shape, arr.kind)
+
     def stack(self, I, arrays, axis, n):
         self.note(I)
         arrs = []
@@ -1383,6 +1417,45 @@ class Numpy:
             return acc
         shape = list(arrs[0].shape)
         shape[axis] = as_dim(offs[-1])
+        return NDArr.fresh(fn, shape, kind)
+
+    def np_stack(self, I, a, k, n):
+        """np.stack(arrays, axis): a NEW axis; out[.., j, ..] = arrays[j][..]; all shapes must be equal."""
+        self.note(I)
+        arrays = k.get("arrays", a[0] if a else None)
+        axis = k.get("axis", a[1] if len(a) > 1 else 0)
+        arrs = [self.coerce(I, x) for x in I.iterate(arrays, n)]
+        if not arrs:
+            I.raise_exc(ValueError, "need at least one array to stack")
+        nd = arrs[0].ndim
+        if not isinstance(axis, int):
+            raise Unsupported("np.stack with a symbolic axis")
+        if axis < 0:
+            axis += nd + 1
+        for x in arrs[1:]:
+            if x.ndim != nd:
+                I.raise_exc(ValueError, "all input arrays must have the same shape")
+            for d in range(nd):
+                da, db = arrs[0].shape[d], x.shape[d]
+                if isinstance(da, int) and isinstance(db, int):
+                    if da != db:
+                        I.raise_exc(ValueError, "all input arrays must have the same shape")
+                elif not I.ctx.branch(zint(da) == zint(db)):
+                    I.raise_exc(ValueError, "all input arrays must have the same shape")
+        kinds = {x.kind for x in arrs}
+        kind = "float" if "float" in kinds else arrs[0].kind
+
+        def fn(*idx):
+            j = z3.simplify(zint(idx[axis]))
+            rest = list(idx[:axis]) + list(idx[axis + 1:])
+            if z3.is_int_value(j):
+                return norm_elem(arrs[j.as_long()].get(*rest), kind)
+            acc = norm_elem(arrs[-1].get(*rest), kind)
+            for q in range(len(arrs) - 2, -1, -1):
+                acc = elem_ite(j == q, norm_elem(arrs[q].get(*rest), kind), acc, kind)
+            return acc
+        shape = list(arrs[0].shape)
+        shape.insert(axis, len(arrs))
         return NDArr.fresh(fn, shape, kind)
 
     def np_hstack(self, I, a, k, n):
@@ -1860,6 +1933,25 @@ class Numpy:
             return NDArr.fresh(lambda *i: (False if arr.kind == "bool" else 0), shape, arr.kind)
         return self.from_nested(I, kept, arr.kind, shape)
 
+    def np_matrix_power(self, I, a, k, n):
+        """numpy.linalg.matrix_power(A, p) for a concrete p >= 0: the identity for 0, repeated products otherwise."""
+        self.note(I)
+        arr, _ = self.dense(I, a[0], "matrix_power")
+        p = a[1] if len(a) > 1 else k.get("n")
+        if isinstance(p, SV):
+            t = z3.simplify(p.t)
+            p = t.as_long() if z3.is_int_value(t) else p
+        if not isinstance(p, int):
+            raise Unsupported("matrix_power with a symbolic exponent")
+        if arr.ndim != 2 or arr.shape[0] != arr.shape[1]:
+            I.raise_exc(np_linalg_error(), "Last 2 dimensions of the array must be square")
+        if p < 0:
+            raise Unsupported("matrix_power with a negative exponent (matrix inverse)")
+        out = self.np_eye(I, [arr.shape[0]], {}, n)
+        for _ in range(p):
+            out = self.matmul(I, out, arr, n)
+        return out
+
     def matmul(self, I, x, y, node):
         self.note(I)
         xa, xl = self.dense(I, x, "matmul")
@@ -1952,6 +2044,16 @@ class Numpy:
         if b1:
             return self.from_nested(I, [row[0] for row in X], "float", (m,))
         return self.from_nested(I, X, "float", (m, ncol))
+
+    def flatten(self, I, obj, a, k, n):
+        """ndarray.flatten(order): always a copy; 'C' row-major, 'F' column-major (1-d arrays: the same)."""
+        order = k.get("order", a[0] if a else "C")
+        if order not in ("C", "F"):
+            raise Unsupported(f"flatten order {order!r}")
+        if order == "C" or obj.ndim <= 1:
+            r = self.reshape(I, obj, [-1], n)
+            return r.copy() if isinstance(r, NDArr) else r
+        return self.reshape_fortran(I, obj, [-1], {"order": "F"}, n)
 
     def reshape_fortran(self, I, a, args, k, n):
         """reshape(..., order="F") for concrete shapes: first index changes fastest on both sides (a copy)"""
